@@ -4,17 +4,20 @@
   The definitions reasoned about are those of `GSV/Model/Fit.lean` (the same text the driver runs on `Rat`
   against the real `gstools.covmodel.fit.fit_variogram` with a scripted optimiser), instantiated at `ℝ`.
   `scipy.optimize.curve_fit` is a parameter: `fit … script popt` evaluates the curve at the points of an
-  ARBITRARY finite list `script` and then receives an ARBITRARY `popt`.  The model class is a parameter too:
-  `c.fac` (`var_factor`, constant 1 for every class except the TPL family) and `c.corr` (the normalised
-  correlation) are uninterpreted functions.
+  ARBITRARY finite list `script` and then receives an ARBITRARY `popt`; as in the code (since the repair of
+  defect D9) the curve is then evaluated once more at `popt` and `_post_fitting` runs.  The model class is a
+  parameter too: `c.fac` (`var_factor`, constant 1 for every class except the TPL family) and `c.corr` (the
+  normalised correlation) are uninterpreted functions.
 
   Clauses of the property and where they are:
-    * untouched          `untouched_plain` (all scripts, `var_factor = 1`), `untouched_partial` (any positive
-                         `var_factor`, last evaluation = popt), `not_untouched_full` (D9b witness)
-    * dict = model       `dict_eq_model_plain`, `dict_eq_model_partial`, `not_dict_eq_model_full` (D9b witness)
+    * untouched          `untouched` (every script / popt, any non-vanishing `var_factor`), `pre_para_honours_selection`
+    * dict = model       `dict_eq_model` (every script / popt)
     * bounds             `within_bounds`, `var_le_sill`, `var_top_is_sill`, `fitted_eq_popt`
-    * sill               `sill_exact_partial`, `sill_exact_var_fixed_plain`, `not_sill_exact_full` (D9a witness)
-    * recovers the curve `curve_faithful`, `r2_noise_free`, `recovers_partial`
+    * sill               `sill_exact_partial` (popt's tied nugget inside the nugget bounds), `sill_exact_full` is false:
+                         `not_sill_exact_full`; `sill_exact_var_fixed`, `pre_para_sill`
+    * recovers the curve `curve_faithful`, `final_state`, `r2_noise_free`, `recovers`
+    * regression (model of the code BEFORE the D9 repair, `fitCore false`): `old_code_breaks_sill`,
+      `old_code_breaks_dict`, `old_code_breaks_untouched`
   Not proved: that `curve_fit` converges to the generating parameters ("from a start near the truth").
 -/
 import GSV.RealInst
@@ -47,29 +50,42 @@ def Untouched (c : Cfg α) (pre : Pre α) (r : Result α) : Prop :=
 
 end statements
 
-/-- **full statement (sill)**: whenever a sill is prescribed, `variance + nugget = sill` after the call —
-    already for classes without a variance factor.  FALSE of the current code (`not_sill_exact_full`). -/
+/-- **full statement (sill)**: whenever a sill is prescribed, `variance + nugget = sill` after the call, whatever
+    `popt` the optimiser returns.  FALSE (`not_sill_exact_full`): a `popt` whose tied nugget `sill - var` lies
+    outside the nugget bounds takes the punishment branch in the final evaluation and the nugget of an earlier
+    evaluation survives.  `sill_exact_partial` excludes exactly that. -/
 def sill_exact_full (α : Type) [Arith α] [DecidableLT α] [DecidableLE α] : Prop :=
   ∀ (c : Cfg α) (s0 : St α) (sel : List (Par × Sel α)) (sl : α) (anis : AnisArg α) (ig : IG α) (w : Weights α)
     (x y : List α) (script : List (List α)) (popt : List α) (r : Result α),
     (∀ l o, c.fac l o = one) → checkAll c s0 = true →
     fit c s0 sel (.value sl) anis ig w true x y script popt = .ok r → r.st.var c + r.st.nug = sl
 
-/-- **full statement (dict)**: for every class with a non-vanishing variance factor the returned dictionary
-    equals the model state.  FALSE of the current code (`not_dict_eq_model_full`). -/
-def dict_eq_model_full (α : Type) [Arith α] [DecidableLT α] [DecidableLE α] : Prop :=
+/-- the three clauses D9 broke, stated for a variant `f` of `fit_variogram` (used with `fitCore false`, the code
+    before the repair, in the regression witnesses) -/
+def SillExactFor (α : Type) [Arith α] [DecidableLT α] [DecidableLE α]
+    (f : Cfg α → St α → List (Par × Sel α) → SillArg α → AnisArg α → IG α → Weights α → Bool → List α → List α →
+      List (List α) → List α → Except Err (Result α)) : Prop :=
+  ∀ (c : Cfg α) (s0 : St α) (sel : List (Par × Sel α)) (sl : α) (anis : AnisArg α) (ig : IG α) (w : Weights α)
+    (x y : List α) (script : List (List α)) (popt : List α) (r : Result α),
+    (∀ l o, c.fac l o = one) → checkAll c s0 = true →
+    f c s0 sel (.value sl) anis ig w true x y script popt = .ok r →
+    punished c r.para r.sill popt = false → r.st.var c + r.st.nug = sl
+
+def DictEqModelFor (α : Type) [Arith α] [DecidableLT α] [DecidableLE α]
+    (f : Cfg α → St α → List (Par × Sel α) → SillArg α → AnisArg α → IG α → Weights α → Bool → List α → List α →
+      List (List α) → List α → Except Err (Result α)) : Prop :=
   ∀ (c : Cfg α) (s0 : St α) (sel : List (Par × Sel α)) (sill : SillArg α) (anis : AnisArg α) (ig : IG α)
     (w : Weights α) (x y : List α) (script : List (List α)) (popt : List α) (r : Result α),
     (∀ l o, c.fac l o ≠ zero) → checkAll c s0 = true →
-    fit c s0 sel sill anis ig w true x y script popt = .ok r → DictEqModel c r
+    f c s0 sel sill anis ig w true x y script popt = .ok r → DictEqModel c r
 
-/-- **full statement (untouched)**: for every class with a non-vanishing variance factor, parameters that are
-    not fitted keep the value `_pre_para` gave them.  FALSE of the current code (`not_untouched_full`). -/
-def untouched_full (α : Type) [Arith α] [DecidableLT α] [DecidableLE α] : Prop :=
+def UntouchedFor (α : Type) [Arith α] [DecidableLT α] [DecidableLE α]
+    (f : Cfg α → St α → List (Par × Sel α) → SillArg α → AnisArg α → IG α → Weights α → Bool → List α → List α →
+      List (List α) → List α → Except Err (Result α)) : Prop :=
   ∀ (c : Cfg α) (s0 : St α) (sel : List (Par × Sel α)) (sill : SillArg α) (anis : AnisArg α) (ig : IG α)
     (w : Weights α) (x y : List α) (script : List (List α)) (popt : List α) (r : Result α) (pre : Pre α),
     (∀ l o, c.fac l o ≠ zero) → checkAll c s0 = true →
-    fit c s0 sel sill anis ig w true x y script popt = .ok r → prePara c s0 sel sill anis = .ok pre →
+    f c s0 sel sill anis ig w true x y script popt = .ok r → prePara c s0 sel sill anis = .ok pre →
     Untouched c pre r
 
 /-! ## theorems at `ℝ` -/
@@ -151,16 +167,36 @@ theorem opt_length_script {pa : Para} {sl : Option ℝ} {anisFit dir : Bool} {va
   rw [(curveState_ok ht).1]
   simpa [curveTarget, installOpts_length] using hP
 
+/-- the phases of a successful call, with the invariants every later theorem needs: `s1` is the state after
+    the optimiser's evaluations, `s1'` the state after the final evaluation at `popt` -/
+theorem fit_phases (h : fit c s0 sel sill anis ig w mOk x y script popt = .ok r) :
+    ∃ pre s1 outs s1' o2,
+      prePara c s0 sel sill anis = .ok pre ∧ r.para = pre.para ∧ r.sill = pre.sill ∧
+      runScript c pre.para pre.sill r.anisFit r.dir (pre.st.var c) r.xdata pre.st script = .ok (s1, outs) ∧
+      runScript c pre.para pre.sill r.anisFit r.dir (pre.st.var c) r.xdata s1 [popt] = .ok (s1', o2) ∧
+      postFitting c pre.para r.anisFit r.dir s1' popt = .ok (r.st, r.dict) ∧
+      pre.para.opt.length = s1'.opt.length ∧ r.outs = outs ∧
+      r.r2 = r2Score c r.dir r.xdata y r.st := by
+  obtain ⟨pre, dir, s1, outs, s1', hpre, _, _, hrun, hev, hpost, hpa, hsl, hdir, haf, hout, hx, hr2⟩ := fitCore_ok h
+  simp only [↓reduceIte] at hev
+  obtain ⟨o2, hev⟩ := hev
+  obtain ⟨_, hlen, _, _⟩ := prePara_ok hpre
+  refine ⟨pre, s1, outs, s1', o2, hpre, hpa, hsl, by rw [haf, hdir, hx]; exact hrun,
+    by rw [haf, hdir, hx]; exact hev, by rw [haf, hdir]; exact hpost, ?_, hout, by rw [hdir, hx]; exact hr2⟩
+  rw [hlen, opt_length_script hev, opt_length_script hrun]
+
 /-- **within_bounds**: a successful call ends with every parameter inside the bounds of the model
     (`check_arg_bounds` passes on the final state: `var`, `len_scale`, `nugget`, every anisotropy ratio and every
     optional argument satisfy their interval, open or closed as declared), whatever the optimiser did. -/
 theorem within_bounds (h : fit c s0 sel sill anis ig w mOk x y script popt = .ok r)
     (h0 : checkAll c s0 = true) : checkAll c r.st = true := by
-  obtain ⟨pre, dir, s1, outs, hpre, _, _, hrun, hpost, _⟩ := fit_ok h
-  obtain ⟨cpre, hlen, _, _⟩ := prePara_ok hpre
+  obtain ⟨pre, s1, outs, s1', o2, hpre, _, _, hrun, hev, hpost, hlen, _⟩ := fit_phases h
+  obtain ⟨cpre, _, _, _⟩ := prePara_ok hpre
   have c1 : checkAll c s1 = true :=
     runScript_induct (P := fun t => checkAll c t = true) (fun _ _ _ ht _ => (curveState_ok ht).2.1) hrun (cpre h0)
-  exact (postFitting_ok hpost (by rw [hlen, opt_length_script hrun])).2.2 c1
+  have c2 : checkAll c s1' = true :=
+    runScript_induct (P := fun t => checkAll c t = true) (fun _ _ _ ht _ => (curveState_ok ht).2.1) hev c1
+  exact (postFitting_ok hpost hlen).2.2 c2
 
 /-- what `checkAll` says for one parameter with finite bounds -/
 theorem inBnd_fin_iff (a b v : ℝ) (lc hc : Bool) :
@@ -174,7 +210,7 @@ theorem var_top_is_sill (pa : Para) (g : Guess ℝ) (sl : ℝ) (af : Bool) (hv :
 
 /-- **fitted parameters end with popt**: after a successful call the fitted variance, length scale and nugget
     are the entries of `popt` at their positions, and the optional arguments are `popt`'s installed over some
-    list (the unfitted ones are pinned down by `untouched_plain`/`untouched_partial`). -/
+    list (the unfitted ones are pinned down by `untouched`). -/
 theorem fitted_eq_popt (hf : ∀ l o, c.fac l o ≠ 0)
     (h : fit c s0 sel sill anis ig w mOk x y script popt = .ok r) :
     (r.para.var = true → r.st.var c = popt.getD 0 0) ∧
@@ -182,18 +218,14 @@ theorem fitted_eq_popt (hf : ∀ l o, c.fac l o ≠ 0)
     (r.para.nug = true → r.st.nug = popt.getD r.para.iNug 0) ∧
     (∃ o, r.st.opt = installOpts o r.para.opt 0 (popt.drop r.para.iOpt)) ∧
     ((r.dir && r.anisFit) = true → r.st.anis = normAnis c (lastAnis c popt)) := by
-  obtain ⟨pre, dir, s1, outs, hpre, _, _, hrun, hpost, hpa, _, hdir, haf, _⟩ := fit_ok h
-  obtain ⟨_, hlen, _, _⟩ := prePara_ok hpre
-  obtain ⟨e, _, _⟩ := postFitting_ok hpost (by rw [hlen, opt_length_script hrun])
-  rw [hpa, hdir, haf]
-  refine ⟨?_, ?_, ?_, ⟨s1.opt, by rw [e]; rfl⟩, ?_⟩
+  obtain ⟨pre, s1, outs, s1', o2, hpre, hpa, _, hrun, hev, hpost, hlen, _⟩ := fit_phases h
+  obtain ⟨e, _, _⟩ := postFitting_ok hpost hlen
+  rw [hpa]
+  refine ⟨?_, ?_, ?_, ⟨s1'.opt, by rw [e]; rfl⟩, ?_⟩
   · intro h1; rw [e]; simp only [St.var, postTarget, h1, ↓reduceIte, zero_real]; rw [var_div_mul (hf _ _)]
   · intro h1; rw [e]; simp [postTarget, h1]
   · intro h1; rw [e]; simp [postTarget, h1]
-  · intro h1
-    rw [e]
-    have : (dir && (pre.anisFit && dir)) = true := h1
-    simp [postTarget, this]
+  · intro h1; rw [e]; simp [postTarget, h1]
 
 /-- **var ≤ sill**: with a constrained sill and a fitted variance, a `popt` that respects the upper bound it
     was given (`var_top_is_sill`) leaves `variance ≤ sill`. -/
@@ -202,148 +234,68 @@ theorem var_le_sill (hf : ∀ l o, c.fac l o ≠ 0)
     (hv : r.para.var = true) (hp : popt.getD 0 0 ≤ sl) : r.st.var c ≤ sl := by
   rw [(fitted_eq_popt hf h).1 hv]; exact hp
 
+/-- **final_state**: unless `popt` takes the punishment branch (fitted variance, constrained sill and
+    `sill - popt_var` outside the nugget bounds), the model ends in the state of the curve evaluation at `popt`:
+    `_post_fitting` changes nothing any more. `s1` is the state the optimiser's own evaluations left. -/
+theorem final_state (h : fit c s0 sel sill anis ig w mOk x y script popt = .ok r)
+    (hp : punished c r.para r.sill popt = false) :
+    ∃ pre s1 outs, prePara c s0 sel sill anis = .ok pre ∧ r.para = pre.para ∧ r.sill = pre.sill ∧
+      runScript c pre.para pre.sill r.anisFit r.dir (pre.st.var c) r.xdata pre.st script = .ok (s1, outs) ∧
+      r.st = curveTarget c pre.para pre.sill r.anisFit r.dir (pre.st.var c) s1 popt := by
+  obtain ⟨pre, s1, outs, s1', o2, hpre, hpa, hsl, hrun, hev, hpost, hlen, _⟩ := fit_phases h
+  rw [hpa, hsl] at hp
+  obtain ⟨e1, _, _⟩ := runScript_single hev hp
+  obtain ⟨e, _, _⟩ := postFitting_ok hpost hlen
+  refine ⟨pre, s1, outs, hpre, hpa, hsl, hrun, ?_⟩
+  rw [e, e1]; exact postTarget_fix _ _ _ _ _ _ _ _
+
 /-! ### dict = model -/
 
-/-- **dict_eq_model (classes without variance factor)**: for EVERY script and popt the returned dictionary
-    equals the model state after the call. -/
-theorem dict_eq_model_plain (hf : ∀ l o, c.fac l o = 1)
+/-- **dict_eq_model** (full): for every class with non-vanishing variance factor, EVERY script and EVERY popt,
+    the returned dictionary equals the model state after the call. -/
+theorem dict_eq_model (hf : ∀ l o, c.fac l o ≠ 0)
     (h : fit c s0 sel sill anis ig w mOk x y script popt = .ok r) : DictEqModel c r := by
-  obtain ⟨pre, dir, s1, outs, hpre, _, _, hrun, hpost, hpa, _, hdir, _⟩ := fit_ok h
-  obtain ⟨_, hlen, _, _⟩ := prePara_ok hpre
-  obtain ⟨e, ed, _⟩ := postFitting_ok hpost (by rw [hlen, opt_length_script hrun])
-  refine ⟨?_, by rw [ed]; rfl, by rw [ed]; rfl, by rw [ed]; rfl, by rw [ed, hdir]; rfl⟩
+  obtain ⟨pre, s1, outs, s1', o2, hpre, hpa, hsl, hrun, hev, hpost, hlen, _⟩ := fit_phases h
+  obtain ⟨e, ed, _⟩ := postFitting_ok hpost hlen
+  refine ⟨?_, by rw [ed]; rfl, by rw [ed]; rfl, by rw [ed]; rfl, by rw [ed]; rfl⟩
   rw [ed]
   simp only [postDict]
   cases hv : pre.para.var
-  · simp only [Bool.false_eq_true, if_false]; rw [e]; simp [St.var, postTarget, hv, hf]
-  · simp only [if_true]; rw [e]; simp [St.var, postTarget, hv, hf]
-
-/-- the state after the call when the optimiser's last evaluation was at `popt` (and not punished): it is the
-    state of that evaluation; `sp` is the state before it, reached from `_pre_para`'s state by the earlier
-    evaluations. -/
-theorem last_eval_state {init : List (List ℝ)}
-    (h : fit c s0 sel sill anis ig w mOk x y (init ++ [popt]) popt = .ok r)
-    (hp : punished c r.para r.sill popt = false) :
-    ∃ pre sp o1, prePara c s0 sel sill anis = .ok pre ∧ r.para = pre.para ∧ r.sill = pre.sill ∧
-      runScript c pre.para pre.sill r.anisFit r.dir (pre.st.var c) r.xdata pre.st init = .ok (sp, o1) ∧
-      r.st = curveTarget c pre.para pre.sill r.anisFit r.dir (pre.st.var c) sp popt ∧
-      r.outs.getLast? = some (some (curveOut c r.dir r.xdata r.st)) := by
-  obtain ⟨pre, dir, s1, outs, hpre, _, _, hrun, hpost, hpa, hsl, hdir, haf, hout, hx, _⟩ := fit_ok h
-  obtain ⟨_, hlen, _, _⟩ := prePara_ok hpre
-  obtain ⟨sm, o1, o2, r1, r2, r3⟩ := runScript_append hrun
-  rw [hpa, hsl] at hp
-  obtain ⟨e1, _, e3⟩ := runScript_single r2 hp
-  obtain ⟨e, _, _⟩ := postFitting_ok hpost (by rw [hlen, opt_length_script hrun])
-  have hfix : r.st = s1 := by rw [e, e1]; exact postTarget_fix _ _ _ _ _ _ _ _
-  refine ⟨pre, sm, o1, hpre, hpa, hsl, by rw [haf, hdir, hx]; exact r1, by rw [hfix, haf, hdir]; exact e1, ?_⟩
-  rw [hout, r3, e3, hfix, hdir, hx]
-  simp
-
-/-- **dict_eq_model_partial**: any class with non-vanishing variance factor, provided the optimiser's last
-    evaluation was at `popt` (and not punished). -/
-theorem dict_eq_model_partial {init : List (List ℝ)} (hf : ∀ l o, c.fac l o ≠ 0)
-    (h : fit c s0 sel sill anis ig w mOk x y (init ++ [popt]) popt = .ok r)
-    (hp : punished c r.para r.sill popt = false) : DictEqModel c r := by
-  obtain ⟨pre0, sp, o1, hpre0, _, _, _, hst, _⟩ := last_eval_state h hp
-  obtain ⟨pre, dir, s1, outs, hpre, _, _, hrun, hpost, hpa, hsl, hdir, haf, _⟩ := fit_ok h
-  obtain ⟨_, hlen, _, _⟩ := prePara_ok hpre
-  obtain ⟨sm, o1', o2, r1, r2, r3⟩ := runScript_append hrun
-  rw [hpa, hsl] at hp
-  obtain ⟨e1, _, _⟩ := runScript_single r2 hp
-  obtain ⟨e, ed, _⟩ := postFitting_ok hpost (by rw [hlen, opt_length_script hrun])
-  have hfix : r.st = s1 := by rw [e, e1]; exact postTarget_fix _ _ _ _ _ _ _ _
-  refine ⟨?_, by rw [ed]; rfl, by rw [ed]; rfl, by rw [ed]; rfl, by rw [ed, hdir]; rfl⟩
-  rw [ed]
-  simp only [postDict]
-  cases hv : pre.para.var
-  · simp only [Bool.false_eq_true, ↓reduceIte]; rw [hfix]
+  · -- variance not fitted: the final evaluation cannot be punished, `_post_fitting` is a no-op on it
+    simp only [Bool.false_eq_true, ↓reduceIte]
+    obtain ⟨e1, _, _⟩ := runScript_single hev (punished_false_of_var hv)
+    have hfix : r.st = s1' := by rw [e, e1]; exact postTarget_fix _ _ _ _ _ _ _ _
+    rw [hfix]
   · simp only [↓reduceIte]
-    rw [hfix, e1]
-    simp only [St.var, curveTarget, hv, ↓reduceIte, zero_real]
+    rw [e]
+    simp only [St.var, postTarget, hv, ↓reduceIte, zero_real]
     rw [var_div_mul (hf _ _)]
 
 /-! ### untouched -/
 
-/-- **untouched (classes without variance factor)**: for EVERY script and popt, parameters that are not fitted
-    end with the value `_pre_para` gave them, and `_pre_para` marks as not fitted everything the caller
-    deselected or fixed (`paraGet pre.para p = false`). -/
-theorem untouched_plain (hf : ∀ l o, c.fac l o = 1)
+/-- **untouched** (full): for every class with non-vanishing variance factor, EVERY script and EVERY popt,
+    parameters that are not fitted end with the value `_pre_para` gave them, and `_pre_para` marks as not fitted
+    everything the caller deselected or fixed (`paraGet pre.para p = false`).  (`AnisWF`: the anisotropy list has
+    the form every setter leaves it in.) -/
+theorem untouched (hf : ∀ l o, c.fac l o ≠ 0)
     (h : fit c s0 sel sill anis ig w mOk x y script popt = .ok r) :
     ∃ pre, prePara c s0 sel sill anis = .ok pre ∧
       (∀ p, (deselected sel).contains p = true → paraGet pre.para p = false) ∧
       (AnisWF c pre.st.anis → Untouched c pre r) := by
-  obtain ⟨pre, dir, s1, outs, hpre, _, _, hrun, hpost, hpa, _, hdir, haf, _⟩ := fit_ok h
-  obtain ⟨_, hlen, _, hdes⟩ := prePara_ok hpre
-  refine ⟨pre, hpre, hdes, fun hwf => ?_⟩
-  obtain ⟨e, _, _⟩ := postFitting_ok hpost (by rw [hlen, opt_length_script hrun])
-  -- invariant of the curve evaluations
-  let P : St ℝ → Prop := fun t =>
-    (pre.para.var = false → t.varRaw = pre.st.var c) ∧
-    (pre.para.len = false → t.len = pre.st.len) ∧
-    (pre.para.nug = false → (pre.sill = none ∨ pre.para.var = false) → t.nug = pre.st.nug) ∧
-    (∀ i, pre.para.opt.getD i true = false → t.opt[i]? = pre.st.opt[i]?) ∧
-    ((dir && (pre.anisFit && dir)) = false → t.anis = pre.st.anis)
-  have hP0 : P pre.st := ⟨fun _ => by simp [St.var, hf], fun _ => rfl, fun _ _ => rfl, fun _ _ => rfl, fun _ => rfl⟩
-  have hP1 : P s1 := by
-    refine runScript_induct (P := P) ?_ hrun hP0
-    intro t a t' ht ⟨p1, p2, p3, p4, p5⟩
-    rw [(curveState_ok ht).1]
-    refine ⟨?_, ?_, ?_, ?_, ?_⟩
-    · intro hv; simp [curveTarget, hv, hf]
-    · intro hl; simp only [curveTarget, hl]; exact p2 hl
-    · intro hn hs
-      simp only [curveTarget, hn]
-      rcases hs with hs | hs
-      · cases pre.para.var <;> simp [hs, tiedNug, p3 hn (Or.inl hs)]
-      · simp [hs, p3 hn (Or.inr hs)]
-    · intro i hi
-      simp only [curveTarget]
-      rw [installOpts_get_unfit _ _ _ _ _ (Or.inl (by simpa using hi))]
-      exact p4 i hi
-    · intro hd
-      simp only [curveTarget, hd]
-      rw [p5 hd]
-      cases pre.para.len
-      · simp
-      · simpa [AnisWF] using hwf
-  obtain ⟨p1, p2, p3, p4, p5⟩ := hP1
-  refine ⟨?_, ?_, ?_, ?_, ?_⟩
-  · intro hv; rw [e]; simp [St.var, postTarget, hv, hf, p1 hv]
-  · intro hl; rw [e]; simp only [postTarget, hl]; exact p2 hl
-  · intro hn hs; rw [e]; simp only [postTarget, hn]; exact p3 hn hs
-  · intro i hi
-    rw [e]
-    simp only [postTarget]
-    rw [installOpts_get_unfit _ _ _ _ _ (Or.inl (by simpa using hi))]
-    exact p4 i hi
-  · intro hd
-    rw [hdir, haf] at hd
-    rw [e]
-    simp only [postTarget, hd]
-    rw [p5 hd]
-    cases pre.para.len
-    · simp
-    · simpa [AnisWF] using hwf
-
-/-- **untouched_partial**: any class with non-vanishing variance factor, provided the optimiser's last
-    evaluation was at `popt` (and not punished). -/
-theorem untouched_partial {init : List (List ℝ)} (hf : ∀ l o, c.fac l o ≠ 0)
-    (h : fit c s0 sel sill anis ig w mOk x y (init ++ [popt]) popt = .ok r)
-    (hp : punished c r.para r.sill popt = false) :
-    ∃ pre, prePara c s0 sel sill anis = .ok pre ∧
-      (∀ p, (deselected sel).contains p = true → paraGet pre.para p = false) ∧
-      (AnisWF c pre.st.anis → Untouched c pre r) := by
-  obtain ⟨pre, sp, o1, hpre, _, _, hinit, hst, _⟩ := last_eval_state h hp
+  obtain ⟨pre, s1, outs, s1', o2, hpre, hpa, hsl, hrun, hev, hpost, hlen, _⟩ := fit_phases h
   obtain ⟨_, _, _, hdes⟩ := prePara_ok hpre
   refine ⟨pre, hpre, hdes, fun hwf => ?_⟩
-  -- invariant of the earlier evaluations (the variance is irrelevant: the last evaluation resets it)
+  obtain ⟨e, _, _⟩ := postFitting_ok hpost hlen
+  -- invariant of the curve evaluations (the variance is handled by the final evaluation)
   let P : St ℝ → Prop := fun t =>
     (pre.para.len = false → t.len = pre.st.len) ∧
     (pre.para.nug = false → (pre.sill = none ∨ pre.para.var = false) → t.nug = pre.st.nug) ∧
     (∀ i, pre.para.opt.getD i true = false → t.opt[i]? = pre.st.opt[i]?) ∧
     ((r.dir && r.anisFit) = false → t.anis = pre.st.anis)
-  have hstep : ∀ t a, P t → P (curveTarget c pre.para pre.sill r.anisFit r.dir (pre.st.var c) t a) := by
-    intro t a ⟨p2, p3, p4, p5⟩
+  have hstep : ∀ t a t', curveState c pre.para pre.sill r.anisFit r.dir (pre.st.var c) t a = .ok (some t') →
+      P t → P t' := by
+    intro t a t' ht ⟨p2, p3, p4, p5⟩
+    rw [(curveState_ok ht).1]
     refine ⟨?_, ?_, ?_, ?_⟩
     · intro hl; simp only [curveTarget, hl]; exact p2 hl
     · intro hn hs
@@ -362,28 +314,41 @@ theorem untouched_partial {init : List (List ℝ)} (hf : ∀ l o, c.fac l o ≠ 
       cases pre.para.len
       · simp
       · simpa [AnisWF] using hwf
-  have hPsp : P sp := by
-    refine runScript_induct (P := P) ?_ hinit ⟨fun _ => rfl, fun _ _ => rfl, fun _ _ => rfl, fun _ => rfl⟩
-    intro t a t' ht hPt
-    rw [(curveState_ok ht).1]
-    exact hstep t a hPt
-  obtain ⟨p2, p3, p4, p5⟩ := hstep sp popt hPsp
-  rw [← hst] at p2 p3 p4 p5
-  refine ⟨?_, p2, p3, p4, p5⟩
-  intro hv
-  rw [hst]
-  simp only [St.var, curveTarget, hv, Bool.false_eq_true, ↓reduceIte]
-  rw [var_div_mul (hf _ _)]
+  have hP1 : P s1 := runScript_induct (P := P) hstep hrun ⟨fun _ => rfl, fun _ _ => rfl, fun _ _ => rfl, fun _ => rfl⟩
+  have hP2 : P s1' := runScript_induct (P := P) hstep hev hP1
+  obtain ⟨p2, p3, p4, p5⟩ := hP2
+  refine ⟨?_, ?_, ?_, ?_, ?_⟩
+  · intro hv
+    obtain ⟨e1, _, _⟩ := runScript_single hev (punished_false_of_var hv)
+    have hfix : r.st = s1' := by rw [e, e1]; exact postTarget_fix _ _ _ _ _ _ _ _
+    rw [hfix, e1]
+    simp only [St.var, curveTarget, hv, Bool.false_eq_true, ↓reduceIte]
+    rw [var_div_mul (hf _ _)]
+  · intro hl; rw [e]; simp only [postTarget, hl]; exact p2 hl
+  · intro hn hs; rw [e]; simp only [postTarget, hn]; exact p3 hn hs
+  · intro i hi
+    rw [e]
+    simp only [postTarget]
+    rw [installOpts_get_unfit _ _ _ _ _ (Or.inl (by simpa using hi))]
+    exact p4 i hi
+  · intro hd
+    rw [e]
+    simp only [postTarget, hd]
+    rw [p5 hd]
+    cases pre.para.len
+    · simp
+    · simpa [AnisWF] using hwf
 
 /-! ### the sill -/
 
-/-- **sill_exact_partial**: a prescribed sill is met exactly by `variance + nugget` after the call — for any
-    class with non-vanishing variance factor — provided the optimiser's last evaluation was at `popt` (and was
-    not the punishment branch).  Without that proviso the statement is false: `not_sill_exact_full`. -/
-theorem sill_exact_partial {init : List (List ℝ)} {sl : ℝ} (hf : ∀ l o, c.fac l o ≠ 0)
-    (h : fit c s0 sel sill anis ig w mOk x y (init ++ [popt]) popt = .ok r) (hs : r.sill = some sl)
+/-- **sill_exact_partial**: a prescribed sill is met exactly by `variance + nugget` after the call — any class
+    with non-vanishing variance factor, EVERY script — provided `popt` itself is not in the punishment region
+    (its tied nugget `sill - popt_var` lies inside the nugget bounds; automatic when the variance is not fitted).
+    Without the proviso the statement is false: `not_sill_exact_full`. -/
+theorem sill_exact_partial {sl : ℝ} (hf : ∀ l o, c.fac l o ≠ 0)
+    (h : fit c s0 sel sill anis ig w mOk x y script popt = .ok r) (hs : r.sill = some sl)
     (hp : punished c r.para r.sill popt = false) : r.st.var c + r.st.nug = sl := by
-  obtain ⟨pre, sp, o1, hpre, hpa, hsl, hinit, hst, _⟩ := last_eval_state h hp
+  obtain ⟨pre, s1, outs, hpre, hpa, hsl, hrun, hst⟩ := final_state h hp
   obtain ⟨_, _, hnug, _⟩ := prePara_ok hpre
   rw [hsl] at hs
   have hn : pre.para.nug = false := hnug (by rw [hs]; rfl)
@@ -391,67 +356,48 @@ theorem sill_exact_partial {init : List (List ℝ)} {sl : ℝ} (hf : ∀ l o, c.
     rw [hst]; simp only [St.var, curveTarget, zero_real]; rw [var_div_mul (hf _ _)]
   cases hvar : pre.para.var
   · -- variance not fitted: the nugget was never touched, `_pre_para` made the sum right
-    have hnugsp : sp.nug = pre.st.nug := by
-      refine runScript_induct (P := fun t => t.nug = pre.st.nug) ?_ hinit rfl
+    have hnug1 : s1.nug = pre.st.nug := by
+      refine runScript_induct (P := fun t => t.nug = pre.st.nug) ?_ hrun rfl
       intro t a t' ht hP
       rw [(curveState_ok ht).1]
       simp [curveTarget, hn, hvar, hP]
     rw [hv, hvar, hst]
-    simp only [Bool.false_eq_true, ↓reduceIte, curveTarget, hn, hvar, hnugsp]
+    simp only [Bool.false_eq_true, ↓reduceIte, curveTarget, hn, hvar, hnug1]
     exact prePara_sill_sum hf hpre hs hvar
   · rw [hv, hvar, hst]
     simp [curveTarget, hn, hvar, hs, tiedNug]
 
-/-- **sill with the variance not fitted (classes without variance factor)**: for EVERY script and popt. -/
-theorem sill_exact_var_fixed_plain {sl : ℝ} (hf : ∀ l o, c.fac l o = 1)
+/-- **sill with the variance not fitted**: no proviso at all (the punishment branch needs a fitted variance). -/
+theorem sill_exact_var_fixed {sl : ℝ} (hf : ∀ l o, c.fac l o ≠ 0)
     (h : fit c s0 sel sill anis ig w mOk x y script popt = .ok r) (hs : r.sill = some sl)
-    (hv : r.para.var = false) : r.st.var c + r.st.nug = sl := by
-  have hf' : ∀ l o, c.fac l o ≠ 0 := fun l o => by rw [hf]; exact one_ne_zero
-  obtain ⟨pre, hpre, _, hunt⟩ := untouched_plain hf h
-  obtain ⟨pre', dir, s1, outs, hpre', _, _, hrun, hpost, hpa, hsl, _⟩ := fit_ok h
-  have : pre' = pre := by rw [hpre] at hpre'; exact (Except.ok.inj hpre').symm
-  subst this
-  rw [hpa] at hv; rw [hsl] at hs
-  obtain ⟨_, hlen, hnug, _⟩ := prePara_ok hpre
-  have hn : pre'.para.nug = false := hnug (by rw [hs]; rfl)
-  -- var and nugget are untouched without needing the anisotropy to be well formed: redo the two invariants
-  obtain ⟨e, _, _⟩ := postFitting_ok hpost (by rw [hlen, opt_length_script hrun])
-  have hP1 : s1.varRaw = pre'.st.var c ∧ s1.nug = pre'.st.nug := by
-    refine runScript_induct (P := fun t => t.varRaw = pre'.st.var c ∧ t.nug = pre'.st.nug) ?_ hrun
-      ⟨by simp [St.var, hf], rfl⟩
-    intro t a t' ht hP
-    rw [(curveState_ok ht).1]
-    simp [curveTarget, hv, hn, hf, hP.2]
-  have e1 : r.st.var c = pre'.st.var c := by rw [e]; simp [St.var, postTarget, hv, hf, hP1.1]
-  have e2 : r.st.nug = pre'.st.nug := by rw [e]; simp [postTarget, hn, hP1.2]
-  rw [e1, e2]
-  exact prePara_sill_sum hf' hpre hs hv
+    (hv : r.para.var = false) : r.st.var c + r.st.nug = sl :=
+  sill_exact_partial hf h hs (punished_false_of_var hv)
 
 /-! ### recovering the generating curve -/
 
-/-- **recovers_partial**: if the data `y` are exactly the curve values at `popt` — the values recorded for the
-    optimiser's last evaluation, i.e. noise-free data generated by the same model family at the parameters the
-    optimiser returns — then the model ends in the generating state and the reported `r2` is 1. -/
-theorem recovers_partial {init : List (List ℝ)}
-    (h : fit c s0 sel sill anis ig w mOk x y (init ++ [popt]) popt = .ok r)
-    (hp : punished c r.para r.sill popt = false) (hy : r.outs.getLast? = some (some y)) :
-    y = curveOut c r.dir r.xdata r.st ∧ r.r2 = 1 := by
-  obtain ⟨pre, sp, o1, hpre, _, _, _, _, hlast⟩ := last_eval_state h hp
-  obtain ⟨_, dir, _, _, _, _, _, _, _, _, _, hdir, _, _, hx, hr2⟩ := fit_ok h
-  rw [hlast] at hy
-  have hy' : y = curveOut c r.dir r.xdata r.st := by
-    simp only [Option.some.injEq] at hy; exact hy.symm
-  refine ⟨hy', ?_⟩
-  rw [hr2, ← hx, ← hdir]
-  conv_lhs => rw [hy']
+/-- two parameter states that agree on everything the variogram depends on -/
+def SameParams (c : Cfg ℝ) (g s : St ℝ) : Prop :=
+  g.var c = s.var c ∧ g.len = s.len ∧ g.nug = s.nug ∧ g.anis = s.anis ∧ g.opt = s.opt
+
+theorem curveOut_congr {g s : St ℝ} (hgs : SameParams c g s) (dir : Bool) (xs : List ℝ) :
+    curveOut c dir xs g = curveOut c dir xs s := by
+  obtain ⟨h1, h2, h3, h4, h5⟩ := hgs
+  have hv : vario c g = vario c s := by funext z; simp only [vario, h1, h2, h3, h5]
+  have ha : varioAxis c g = varioAxis c s := by funext i z; simp only [varioAxis, hv, h4]
+  simp only [curveOut, hv, ha]
+
+/-- **recovers**: if the data are the variogram values of the same model family at a generating state `g`, and
+    the call ends with the generating parameters (fitted ones: `fitted_eq_popt` with `popt` = the generating
+    values; the others: `untouched`), then the reported `r2` is 1. -/
+theorem recovers {g : St ℝ} (h : fit c s0 sel sill anis ig w mOk x y script popt = .ok r)
+    (hg : SameParams c g r.st) (hy : y = curveOut c r.dir r.xdata g) : r.r2 = 1 := by
+  obtain ⟨_, _, _, _, _, _, _, _, _, _, _, _, _, hr2⟩ := fit_phases h
+  rw [hr2, hy, curveOut_congr hg]
   exact r2_self c r.dir r.xdata r.st
 
 end thms
 
-/-! ## concrete scripted-optimiser witnesses (computed on `Rat` by kernel evaluation of the model)
-
-  The same witnesses are replayed on the implementation by `vlib/props/C10.py` (`directed`): real scipy runs
-  show `var + nugget - sill ≈ -2e-8` (D9a) and `dict["var"] ≠ model.var` for the TPL classes (D9b). -/
+/-! ## concrete scripted-optimiser witnesses (computed on `Rat` by kernel evaluation of the model) -/
 
 section witnesses
 
@@ -465,86 +411,14 @@ def wPlain : Cfg Rat :=
     anisB := wBndOpen, optB := [], fac := fun _ _ => one,
     corr := fun len _ r => if 1 - r / len < 0 then 0 else 1 - r / len }
 
+/-- the same class with custom nugget bounds `[0, 1/2]` (`set_arg_bounds(nugget=[0, 0.5])`) -/
+def wNugBnd : Cfg Rat := { wPlain with nugB := ⟨.fin 0, .fin (1 / 2), true, true⟩ }
+
 /-- the same class with a TPL-like variance factor `var = var_raw * (len_scale² + 1)` -/
 def wFac : Cfg Rat := { wPlain with fac := fun len _ => len * len + 1 }
 
 def wS0 : St Rat := { varRaw := 1, len := 1, nug := 0, anis := [], opt := [] }
 def wIG : IG Rat := { dflt := 0, badName := false, var := none, len := none, nug := none, anis := none, opt := [] }
-
-/-- D9a: `fit_variogram(x, y, sill=2, len_scale=False)`; the optimiser evaluates the curve at var = 1 and
-    returns popt = [3/2] -/
-def wSillRun : Except Err (Result Rat) :=
-  fit wPlain wS0 [(.len, .flag false)] (.value 2) (.flag true) wIG .none true [1, 2] [1, 2] [[1]] [3 / 2]
-
-def wSillCheck : Bool :=
-  match wSillRun with
-  | .ok r => !decide (r.st.var wPlain + r.st.nug = 2)
-  | .error _ => false
-
-/-- **the full sill statement is false** of the code as it is: var = 3/2 from popt, nugget = 2 − 1 from the last
-    evaluation, so `var + nugget = 5/2 ≠ 2` (defect D9a, `fit:last-evaluation-state:fixed-sill-var-only`). -/
-theorem not_sill_exact_full : ¬ sill_exact_full Rat := by
-  intro h
-  have hw : wSillCheck = true := by decide +kernel
-  unfold wSillCheck at hw
-  split at hw
-  · rename_i r hr
-    have h2 := h wPlain wS0 [(.len, .flag false)] 2 (.flag true) wIG .none [1, 2] [1, 2] [[1]] [3 / 2] r
-      (fun _ _ => rfl) (by decide +kernel) hr
-    simp [h2] at hw
-  · cases hw
-
-theorem wFac_ne_zero : ∀ (l : Rat) (o : List Rat), wFac.fac l o ≠ zero := by
-  intro l _
-  show l * l + 1 ≠ ((0 : Nat) : Rat)
-  have := mul_self_nonneg l
-  simp only [Nat.cast_zero]
-  linarith
-
-/-- D9b: `fit_variogram(x, y, var=False)` on a class with variance factor; the optimiser evaluates the curve at
-    (len_scale, nugget) = (2, 0) and returns popt = [1, 0] -/
-def wFacRun : Except Err (Result Rat) :=
-  fit wFac wS0 [(.var, .flag false)] .none (.flag true) wIG .none true [1, 2] [1, 2] [[2, 0]] [1, 0]
-
-def wDictCheck : Bool :=
-  match wFacRun with
-  | .ok r => !decide (r.dict.var = r.st.var wFac)
-  | .error _ => false
-
-/-- **the full dict statement is false** of the code as it is: `dict["var"] = 2` (read while the model still had
-    the last evaluation's length scale) but `model.var = 4/5` (defect D9b, `fit:last-evaluation-state:tpl-var-deselected`). -/
-theorem not_dict_eq_model_full : ¬ dict_eq_model_full Rat := by
-  intro h
-  have hw : wDictCheck = true := by decide +kernel
-  unfold wDictCheck at hw
-  split at hw
-  · rename_i r hr
-    have h2 := h wFac wS0 [(.var, .flag false)] .none (.flag true) wIG .none [1, 2] [1, 2] [[2, 0]] [1, 0] r
-      wFac_ne_zero (by decide +kernel) hr
-    simp [h2.1] at hw
-  · cases hw
-
-def wUntCheck : Bool :=
-  match wFacRun, prePara wFac wS0 [(.var, .flag false)] SillArg.none (AnisArg.flag true) with
-  | .ok r, .ok pre => !decide (r.st.var wFac = pre.st.var wFac) && !pre.para.var
-  | _, _ => false
-
-/-- **the full untouched statement is false** of the code as it is: the deselected variance 2 ends as 4/5
-    (defect D9b). -/
-theorem not_untouched_full : ¬ untouched_full Rat := by
-  intro h
-  have hw : wUntCheck = true := by decide +kernel
-  unfold wUntCheck at hw
-  split at hw
-  · rename_i r pre hr hpre
-    have h2 := h wFac wS0 [(.var, .flag false)] .none (.flag true) wIG .none [1, 2] [1, 2] [[2, 0]] [1, 0] r pre
-      wFac_ne_zero (by decide +kernel) hr hpre
-    simp only [Bool.and_eq_true, Bool.not_eq_eq_eq_not, Bool.not_true, decide_eq_false_iff_not] at hw
-    exact hw.1 (h2.1 hw.2)
-  · cases hw
-
-/-! hypotheses of the `_partial` theorems are satisfiable (same witnesses, last evaluation = popt):
-    a successful run whose script ends in popt, not punished, with a constrained sill / a deselected variance -/
 
 def okAnd (e : Except Err (Result Rat)) (p : Result Rat → Bool) : Bool :=
   match e with
@@ -557,22 +431,105 @@ theorem okAnd_spec {e : Except Err (Result Rat)} {p : Result Rat → Bool} (h : 
   | ok r => exact ⟨r, rfl, h⟩
   | error _ => cases h
 
+/-- `fit_variogram(x, y, sill=2, len_scale=False)` with nugget bounds `[0, 1/2]`: the optimiser evaluates the
+    curve at var = 7/4 (nugget 1/4) and returns popt = [1], whose tied nugget 1 is out of bounds -/
+def wSillRun : Except Err (Result Rat) :=
+  fit wNugBnd wS0 [(.len, .flag false)] (.value 2) (.flag true) wIG .none true [1, 2] [1, 2] [[7 / 4]] [1]
+
+/-- **the unrestricted sill statement is false**: a `popt` in the punishment region leaves var = 1 (from popt)
+    and nugget = 1/4 (from the earlier evaluation), `var + nugget = 5/4 ≠ 2`.  (Real `curve_fit` cannot return
+    such a popt as an optimum — its residual is infinite — but nothing in `fit_variogram` checks it; the related
+    reachable failure is the known finding `fit:sill-vs-bounds:*`.) -/
+theorem not_sill_exact_full : ¬ sill_exact_full Rat := by
+  intro h
+  have hw : okAnd wSillRun (fun r => !decide (r.st.var wNugBnd + r.st.nug = 2)) = true := by decide +kernel
+  obtain ⟨r, hr, hc⟩ := okAnd_spec hw
+  have h2 := h wNugBnd wS0 [(.len, .flag false)] 2 (.flag true) wIG .none [1, 2] [1, 2] [[7 / 4]] [1] r
+    (fun _ _ => rfl) (by decide +kernel) hr
+  simp [h2] at hc
+
+/-! ### regression: the code before the D9 repair (`fitCore false`: no final evaluation at `popt`) -/
+
+/-- `fit_variogram(x, y, sill=2, len_scale=False)`; the optimiser evaluates the curve at var = 1 and returns
+    popt = [3/2] (not punished: tied nugget 1/2 ≥ 0) -/
+def wOldSillRun : Except Err (Result Rat) :=
+  fitCore false wPlain wS0 [(.len, .flag false)] (.value 2) (.flag true) wIG .none true [1, 2] [1, 2] [[1]] [3 / 2]
+
+/-- without the final evaluation the sill identity fails even for a harmless popt: var = 3/2 from popt,
+    nugget = 2 − 1 from the last evaluation (defect D9a as it was; the search key
+    `fit:last-evaluation-state:fixed-sill-var-only` watches for its return) -/
+theorem old_code_breaks_sill : ¬ SillExactFor Rat (fitCore false) := by
+  intro h
+  have hw : okAnd wOldSillRun (fun r => !decide (r.st.var wPlain + r.st.nug = 2) &&
+      !punished wPlain r.para r.sill [3 / 2]) = true := by decide +kernel
+  obtain ⟨r, hr, hc⟩ := okAnd_spec hw
+  simp only [Bool.and_eq_true, Bool.not_eq_eq_eq_not, Bool.not_true, decide_eq_false_iff_not] at hc
+  exact hc.1 (h wPlain wS0 [(.len, .flag false)] 2 (.flag true) wIG .none [1, 2] [1, 2] [[1]] [3 / 2] r
+    (fun _ _ => rfl) (by decide +kernel) hr hc.2)
+
+/-- the repaired code meets the sill on the same script -/
+example : okAnd (fit wPlain wS0 [(.len, .flag false)] (.value 2) (.flag true) wIG .none true [1, 2] [1, 2] [[1]] [3 / 2])
+    (fun r => decide (r.st.var wPlain + r.st.nug = 2)) = true := by decide +kernel
+
+theorem wFac_ne_zero : ∀ (l : Rat) (o : List Rat), wFac.fac l o ≠ zero := by
+  intro l _
+  show l * l + 1 ≠ ((0 : Nat) : Rat)
+  have := mul_self_nonneg l
+  simp only [Nat.cast_zero]
+  linarith
+
+/-- `fit_variogram(x, y, var=False)` on a class with variance factor; the optimiser evaluates the curve at
+    (len_scale, nugget) = (2, 0) and returns popt = [1, 0] -/
+def wOldFacRun : Except Err (Result Rat) :=
+  fitCore false wFac wS0 [(.var, .flag false)] .none (.flag true) wIG .none true [1, 2] [1, 2] [[2, 0]] [1, 0]
+
+/-- without the final evaluation `dict["var"] = 2` (read while the model still had the last evaluation's length
+    scale) but `model.var = 4/5` (defect D9b as it was) -/
+theorem old_code_breaks_dict : ¬ DictEqModelFor Rat (fitCore false) := by
+  intro h
+  have hw : okAnd wOldFacRun (fun r => !decide (r.dict.var = r.st.var wFac)) = true := by decide +kernel
+  obtain ⟨r, hr, hc⟩ := okAnd_spec hw
+  have h2 := h wFac wS0 [(.var, .flag false)] .none (.flag true) wIG .none [1, 2] [1, 2] [[2, 0]] [1, 0] r
+    wFac_ne_zero (by decide +kernel) hr
+  simp [h2.1] at hc
+
+def wUntCheck : Bool :=
+  match wOldFacRun, prePara wFac wS0 [(.var, .flag false)] SillArg.none (AnisArg.flag true) with
+  | .ok r, .ok pre => !decide (r.st.var wFac = pre.st.var wFac) && !pre.para.var
+  | _, _ => false
+
+/-- without the final evaluation the deselected variance 2 of a TPL-like class ends as 4/5 (defect D9b as it was) -/
+theorem old_code_breaks_untouched : ¬ UntouchedFor Rat (fitCore false) := by
+  intro h
+  have hw : wUntCheck = true := by decide +kernel
+  unfold wUntCheck at hw
+  split at hw
+  · rename_i r pre hr hpre
+    have h2 := h wFac wS0 [(.var, .flag false)] .none (.flag true) wIG .none [1, 2] [1, 2] [[2, 0]] [1, 0] r pre
+      wFac_ne_zero (by decide +kernel) hr hpre
+    simp only [Bool.and_eq_true, Bool.not_eq_eq_eq_not, Bool.not_true, decide_eq_false_iff_not] at hw
+    exact hw.1 (h2.1 hw.2)
+  · cases hw
+
+/-! hypotheses of the theorems are satisfiable by non-trivial objects (rational instances of the same model):
+    successful runs with a constrained sill / a deselected variance under a variance factor / noise-free data -/
+
 example : ∃ r, fit wPlain wS0 [(.len, .flag false)] (.value 2) (.flag true) wIG .none true [1, 2] [1, 2]
-      ([[1]] ++ [[3 / 2]]) [3 / 2] = .ok r ∧
+      [[1], [5 / 4]] [3 / 2] = .ok r ∧
       (decide (r.sill = some 2) && !punished wPlain r.para r.sill [3 / 2] &&
         decide (r.st.var wPlain + r.st.nug = 2) && decide (r.para = ⟨true, false, false, []⟩)) = true :=
   okAnd_spec (by decide +kernel)
 
 example : ∃ r, fit wFac wS0 [(.var, .flag false)] .none (.flag true) wIG .none true [1, 2] [1, 2]
-      ([[2, 0]] ++ [[1, 0]]) [1, 0] = .ok r ∧
-      (!punished wFac r.para r.sill [1, 0] && decide (r.dict.var = r.st.var wFac) &&
-        decide (r.st.var wFac = 2) && decide (r.para = ⟨false, true, true, []⟩)) = true :=
+      [[2, 0]] [1, 0] = .ok r ∧
+      (decide (r.dict.var = r.st.var wFac) && decide (r.st.var wFac = 2) &&
+        decide (r.para = ⟨false, true, true, []⟩)) = true :=
   okAnd_spec (by decide +kernel)
 
-/-- noise-free data: the curve values at popt as data give r2 = 1 on the rational model too -/
+/-- noise-free data: the curve values of the family at (var, len_scale, nugget) = (3/2, 4, 7/4) as data and the
+    optimiser returning those parameters give r2 = 1 on the rational model too -/
 example : ∃ r, fit wPlain wS0 [] .none (.flag true) wIG .none true [1, 2] [17 / 8, 5 / 2]
-      ([[1, 1, 1]] ++ [[3 / 2, 4, 7 / 4]]) [3 / 2, 4, 7 / 4] = .ok r ∧
-      (decide (r.outs.getLast? = some (some [17 / 8, 5 / 2])) && decide (r.r2 = 1)) = true :=
+      [[1, 1, 1]] [3 / 2, 4, 7 / 4] = .ok r ∧ (decide (r.r2 = 1)) = true :=
   okAnd_spec (by decide +kernel)
 
 end witnesses
